@@ -550,7 +550,7 @@ fn tolerance(p: &Parts, lat: &Lat) -> Tol {
 
 /// geo's result in lattice units relative to base (the subtraction is exact or rounds by <= u·|result|)
 fn local(lat: &Lat, base: IP, c: Point<f64>) -> (f64, f64) {
-    let s = 2f64.powi(-lat.sh);
+    let s = crate::q::pow2(-lat.sh);
     (c.x() * s - (lat.ox + base.0) as f64, c.y() * s - (lat.oy + base.1) as f64)
 }
 
@@ -638,7 +638,7 @@ fn tri_defect_emulation(p: &Parts, lat: &Lat) -> Option<((f64, f64), f64)> {
     if p.dim() != 2 || !p.areal.iter().any(|a| a.tri.is_some()) {
         return None;
     }
-    let s2 = 2f64.powi(-2 * lat.sh);
+    let s2 = crate::q::pow2(-2 * lat.sh);
     let (mut w, mut sx, mut sy, mut wabs) = (0f64, 0f64, 0f64, 0f64);
     for a in &p.areal {
         let cx = q2f(a.gx, 3 * a.w2);
@@ -961,7 +961,7 @@ pub fn check_case(sh: &mut Shard, cs: &Case, verbose: bool) {
                 Ok(Some(c1)) => {
                     let l1 = local(ls, p.base, c1);
                     let d = (l1.0 - l0.0).abs().max((l1.1 - l0.1).abs());
-                    let k = 2f64.powi(ls.sh - lat.sh);
+                    let k = crate::q::pow2(ls.sh - lat.sh);
                     let bitexact = (c0.x() * k).to_bits() == c1.x().to_bits() && (c0.y() * k).to_bits() == c1.y().to_bits();
                     sh.class(if bitexact { "scaling.pow2:bit_exact" } else { "scaling.pow2:not_bit_exact" });
                     if verbose {
